@@ -205,6 +205,8 @@ def lines_of(rng, sc):
     findable = [c for c in t if not any(is_nan(v) for v in t[c])]
     if findable and rng.random() < 0.5:
         out.append('(flt find %s %s %s)' % (tw, enc(rng.choice(findable)), tail))
+    elif rng.random() < 0.04:
+        out.append('(flt find %s %s %s)' % (tw, enc('q'), tail))      # find_<col> of a column that is not there: KeyError
     return out
 
 
@@ -272,6 +274,12 @@ def call(d, op, p, kw, dc, key=None):
     if op == 'find':
         return getattr(d, 'find_' + key)(*args, **kw)
     return getattr(d, op)(*args, **kw)
+
+
+def new_state():
+    from . import c01
+    c01.start_coverage()
+    return None
 
 
 def run_line(state, sx):
@@ -412,6 +420,9 @@ def laws(rng, tier, ctx):
                     yield Finding('violation', fcase, 'find_%s raised although exactly one value (%r) is selected' % (c, distinct[0]))
             except Exception as e:
                 yield Finding('violation', fcase, 'find_%s raised %s' % (c, type(e).__name__))
+    from . import c01
+    if c01._COV['on']:
+        EXTRA['line_coverage'] = c01.coverage_report([(201, 215), (413, 428), (502, 524), (594, 609)])
     yield count
 
 
